@@ -563,6 +563,26 @@ class Sym:
         s_ = pp.ty(ty)
         return re.sub(r"(?:[A-Za-z_][A-Za-z_0-9]*::)+", "", s_)
 
+    def guarded_name(self, t):
+        """for a multi-definition local: `{v1 if g1 | v2 if g2}` with the guards that distinguish the definitions"""
+        t0 = strip(t)
+        if t0[0] != "var":
+            return self.arg_name(t)
+        tm = self.an.terms
+        defs = tm.defs.whole[t0[1]]
+        rows = []
+        for (bi, si, x) in defs:
+            v = tm.call_term(x, bi) if si == "t" else tm.rvalue(x)
+            ats = set()
+            for (d, rel, vals) in self.an.atoms_at(bi):
+                for a in self.atoms(d, rel, vals):
+                    ats.add(atom_str(a))
+            rows.append((self.arg_name(v), ats))
+        if not rows:
+            return self.name(t0)
+        common = set.intersection(*[r[1] for r in rows]) if rows else set()
+        return "{" + " | ".join(sorted("%s if %s" % (v, " and ".join(sorted(a - common)) or "true") for v, a in rows)) + "}"
+
     def mut_name(self, t):
         """canonical name of a local that is initialised and then mutated through &mut views:
         Vec::new() + pushes -> vec[push <values>]; otherwise mut(<init>)"""
@@ -827,57 +847,74 @@ class Sym:
         return None
 
     def enum_of(self, place_term):
-        """type path of the enum whose discriminant is read (from the defining call's dest type)"""
-        t = strip(place_term)
+        """type path of the ADT whose discriminant is read"""
+        ty = self.type_of(place_term)
+        while ty is not None and ty.get("k") == "ref":
+            ty = ty["t"]
+        if ty is not None and ty.get("k") == "adt":
+            return ty["p"]
+        return None
+
+    def type_of(self, term, depth=0):
+        """type JSON of a term (through refs), or None"""
+        if depth > 12:
+            return None
+        t = term
+        while t[0] in ("ref", "deref", "mut"):
+            t = t[1] if t[0] != "mut" else t[2]
+
+        def unref(ty):
+            while ty is not None and ty.get("k") == "ref":
+                ty = ty["t"]
+            return ty
         if t[0] == "call":
             blk = self.an.body.blocks[t[3]]["t"]
             d = blk["dest"]
             if not d["pr"]:
-                ty = self.an.body.locals[d["l"]]["ty"]
-                if ty["k"] == "adt":
-                    return ty["p"]
-        if t[0] == "param":
-            ty = self.an.body.locals[t[1]]["ty"]
-            while ty["k"] == "ref":
-                ty = ty["t"]
-            if ty["k"] == "adt":
-                return ty["p"]
-        if t[0] == "try":
-            inner = strip(t[1])
-            if inner[0] == "call":
-                blk = self.an.body.blocks[inner[3]]["t"]
-                d = blk["dest"]
-                if not d["pr"]:
-                    ty = self.an.body.locals[d["l"]]["ty"]
-                    if ty["k"] == "adt" and ty["p"].endswith("Result") and ty["a"] and ty["a"][0]["k"] == "adt":
-                        return ty["a"][0]["p"]
+                return unref(self.an.body.locals[d["l"]]["ty"])
             return None
-        if t[0] == "field" and strip(t[1])[0] == "downcast":
-            dc = strip(t[1])
-            src = strip(dc[1])
-            if src[0] == "call":
-                blk = self.an.body.blocks[src[3]]["t"]
-                d = blk["dest"]
-                if not d["pr"]:
-                    ty = self.an.body.locals[d["l"]]["ty"]
-                    if ty["k"] == "adt" and ty["p"].split("::")[-1] in ("Option", "Result") and ty["a"]:
-                        idx = 1 if dc[2] == "Err" else 0
-                        if idx < len(ty["a"]):
-                            et = ty["a"][idx]
-                            while et["k"] == "ref":
-                                et = et["t"]
-                            if et["k"] == "adt":
-                                return et["p"]
-                            if et["k"] == "tuple":
-                                return None
-            base_ty = self.enum_of(dc[1])
-            a = self.prog.adts.get(base_ty) if base_ty else None
-            if a:
-                for var in a["variants"]:
-                    if var["name"] == dc[2] and t[2] < len(var["fields"]):
-                        fty = var["fields"][t[2]]["ty"]
-                        if fty["k"] == "adt":
-                            return fty["p"]
+        if t[0] == "param":
+            return unref(self.an.body.locals[t[1]]["ty"])
+        if t[0] == "var":
+            return unref(self.an.body.locals[t[1]]["ty"])
+        if t[0] == "try":
+            ty = self.type_of(t[1], depth + 1)
+            if ty and ty.get("k") == "adt" and ty["p"].split("::")[-1] in ("Result", "Option") and ty["a"]:
+                return unref(ty["a"][0])
+            return None
+        if t[0] == "downcast":
+            return self.type_of(t[1], depth + 1)   # same value, narrowed to a variant
+        if t[0] == "field":
+            base = strip(t[1])
+            if base[0] == "downcast":
+                ety = self.type_of(base[1], depth + 1)
+                if ety is None:
+                    return None
+                if ety.get("k") == "adt" and ety["p"].split("::")[-1] in ("Option", "Result") and ety["p"].startswith(("std::", "core::")):
+                    idx = 1 if base[2] == "Err" else 0
+                    return unref(ety["a"][idx]) if idx < len(ety["a"]) and t[2] == 0 else None
+                a = self.prog.adts.get(ety.get("p")) if ety.get("k") == "adt" else None
+                if a:
+                    for var in a["variants"]:
+                        if var["name"] == base[2] and t[2] < len(var["fields"]):
+                            return unref(var["fields"][t[2]]["ty"])
+                return None
+            bty = self.type_of(base, depth + 1)
+            if bty is None:
+                return None
+            if bty.get("k") == "tuple" and t[2] < len(bty["ts"]):
+                return unref(bty["ts"][t[2]])
+            if bty.get("k") == "adt":
+                a = self.prog.adts.get(bty["p"])
+                if a and a["kind"] == "struct" and t[2] < len(a["variants"][0]["fields"]):
+                    return unref(a["variants"][0]["fields"][t[2]]["ty"])
+            return None
+        if t[0] == "index":
+            bty = self.type_of(t[1], depth + 1)
+            if bty and bty.get("k") in ("array", "slice"):
+                return unref(bty["t"])
+            return None
+        if t[0] == "loopval" or t[0] == "aggr":
             return None
         return None
 
